@@ -15,6 +15,8 @@ import ndn.encoding as enc
 from ndn import types as nt
 from ndn.security import DigestSha256Signer
 
+from ndn.transport.udp_face import UdpFace
+
 from mc.core import Acc
 from mc.explore import execute, explore, sub_multiset_orderings
 from mc.ndnenv import HFace, FRONTENDS, owned_env, trie_size, exc_class
@@ -86,6 +88,8 @@ SCENARIOS = {
 
 for _k in ('S1', 'S4', 'S7'):
     SCENARIOS[_k + 'p'] = dict(SCENARIOS[_k], shared_param=True)
+# S1 over the shipped UDP face (fake datagram transport that behaves like asyncio's: close() -> connection_lost(None))
+SCENARIOS['S1u'] = dict(SCENARIOS['S1'], udp=True, phase2=False)
 # S1 / S7 with the main-loop task being cancelled instead of an orderly shutdown
 for _k in ('S1', 'S7'):
     SCENARIOS[_k + 'm'] = dict(SCENARIOS[_k], alphabet=[('m' if a == 's' else a) for a in SCENARIOS[_k]['alphabet']], phase2=False)
@@ -110,8 +114,9 @@ SCENARIOS['S3d'] = {
 for _k in ('S1', 'S7'):
     SCENARIOS[_k + 't'] = dict(SCENARIOS[_k], twin=True, phase2=False)
 # S2 / S7 with DEBUG logging of the library turned on
-for _k in ('S2', 'S7'):
-    SCENARIOS[_k + 'g'] = dict(SCENARIOS[_k], debug_logging=True, phase2=False)
+for _k, _nc in (('S2', 'dC'), ('S7', 'dB')):
+    SCENARIOS[_k + 'g'] = dict(SCENARIOS[_k], debug_logging=True, phase2=False,
+                               packets={k: (dict(v, nocontent=True) if k == _nc else v) for k, v in SCENARIOS[_k]['packets'].items()})
 # a lifetime of zero next to an ordinary Interest
 SCENARIOS['S5z'] = {
     'interests': [{'name': '/a', 'cbp': False, 'lifetime': 0}, {'name': '/b', 'cbp': False, 'lifetime': 10}, {'name': '/a', 'cbp': True, 'lifetime': 10}],
@@ -122,9 +127,31 @@ SCENARIOS['S5z'] = {
 # S2 with the Data packets arriving inside link-layer envelopes
 SCENARIOS['S2w'] = dict(SCENARIOS['S2'], packets={k: (dict(v, lp=True) if 'data' in v else v) for k, v in SCENARIOS['S2']['packets'].items()})
 
-LEN = {'quick': {'S1': 5, 'S2': 5, 'S3': 5, 'S3b': 5, 'S4': 5, 'S5': 5, 'S7': 5, 'S1p': 4, 'S4p': 4, 'S7p': 4, 'S2w': 4, 'S1m': 4, 'S7m': 4, 'S5d': 4, 'S3d': 5, 'S5z': 4, 'S2g': 3, 'S7g': 3, 'S1t': 3, 'S7t': 3},
-       'thorough': {'S1': 6, 'S2': 6, 'S3': 6, 'S3b': 6, 'S4': 6, 'S5': 6, 'S7': 6, 'S1p': 5, 'S4p': 5, 'S7p': 5, 'S2w': 5, 'S1m': 5, 'S7m': 5, 'S5d': 5, 'S3d': 6, 'S5z': 5, 'S2g': 4, 'S7g': 4, 'S1t': 4, 'S7t': 4}}
+LEN = {'quick': {'S1': 5, 'S2': 5, 'S3': 5, 'S3b': 5, 'S4': 5, 'S5': 5, 'S7': 5, 'S1p': 4, 'S4p': 4, 'S7p': 4, 'S2w': 4, 'S1m': 4, 'S7m': 4, 'S5d': 4, 'S3d': 5, 'S1u': 4, 'S5z': 4, 'S2g': 3, 'S7g': 3, 'S1t': 3, 'S7t': 3},
+       'thorough': {'S1': 6, 'S2': 6, 'S3': 6, 'S3b': 6, 'S4': 6, 'S5': 6, 'S7': 6, 'S1p': 5, 'S4p': 5, 'S7p': 5, 'S2w': 5, 'S1m': 5, 'S7m': 5, 'S5d': 5, 'S3d': 6, 'S1u': 5, 'S5z': 5, 'S2g': 4, 'S7g': 4, 'S1t': 4, 'S7t': 4}}
 DEV = {'quick': 1, 'thorough': 2}
+
+
+class UdpHFace(UdpFace):
+    """the shipped UDP face on the virtual loop's datagram transport; the harness holds the other end"""
+
+    def __init__(self, trace):
+        super().__init__('127.0.0.1', 6363)
+        self.trace = trace
+
+    @property
+    def sent(self):
+        return self.transport.sent if hasattr(self, 'transport') else []
+
+    def deliver(self, wire, typ=None, label=None):
+        orig, trace = self.callback, self.trace
+        loop = asyncio.get_running_loop()
+
+        async def cb(t, d):
+            trace.append(('rx', label, loop.us))
+            await orig(t, d)
+        self.handler.callback = cb
+        self.handler.datagram_received(wire, ('127.0.0.1', 6363))
 
 
 V2_VALUES = {'accept': nt.ValidResult.PASS, 'reject': nt.ValidResult.FAIL, 'PASS': nt.ValidResult.PASS,
@@ -186,7 +213,7 @@ class Built:
         self.ref_packets = {}
         for label, p in sp['packets'].items():
             if 'data' in p:
-                content = ('content-of-' + label).encode()
+                content = None if p.get('nocontent') else ('content-of-' + label).encode()       # a Data packet need not have a Content element
                 wire = bytes(enc.make_data(p['data'], enc.MetaInfo(), content, DigestSha256Signer()))
                 # 'lp': the same Data inside a link-layer envelope (CongestionMark header); the packet hash is that of the Data
                 self.packets[label] = (b'\x64' + bytes([len(wire) + 7]) + b'\xfd\x03\x40\x01\x01' + b'\x50' + bytes([len(wire)]) + wire
@@ -253,7 +280,7 @@ class PitScenario:
             from mc.ndnenv import debug_logging
             self.dbg = debug_logging()
             self.dbg.__enter__()
-        self.face = HFace(self.trace)
+        self.face = UdpHFace(self.trace) if self.b.spec.get('udp') else HFace(self.trace)
         self.app = self.fe.make_app(self.face)
         self.main = self.loop.create_task(self.app.main_loop())
         self.loop.drain()
@@ -271,7 +298,7 @@ class PitScenario:
 
     def label_of(self, name, content):
         for label, rp in self.b.ref_packets.items():
-            if rp['kind'] == 'data' and content is not None and bytes(content) == rp['content'] \
+            if rp['kind'] == 'data' and (None if content is None else bytes(content)) == rp['content'] \
                     and [bytes(c).hex() for c in name] == rp['comps']:
                 return label
         return '?'
